@@ -146,6 +146,17 @@ func checkC19(c *Ctx) {
 			}
 		}
 		p.Write()
+		if chance(r, 20) {
+			// a file only the schema validator (which the tool installs by default, and
+			// the reference has installed too) refuses: a negative hook timeout
+			for i, d := range p.Phys {
+				if p.Exists[i] {
+					must(os.WriteFile(filepath.Join(d, "zz-schema-only.json"), []byte(`{"cdiVersion":"0.6.0","kind":"schema-only.org/dev","devices":[{"name":"d","containerEdits":{"hooks":[{"hookName":"prestart","path":"/bin/h","timeout":-1}]}}]}`), 0o644))
+					c.Count("populations_with_a_file_only_the_schema_refuses", 1)
+					break
+				}
+			}
+		}
 		// reference
 		ref, ok := newRefAutoCache(cdi.WithSpecDirs(p.Conf...))
 		defer releaseCache(ref)
